@@ -54,6 +54,8 @@ def TablesAgreeA (T : Tables) : Prop :=
   Gen.K11c.tbl_UPPER_TABLE.mapM classifyB = some T.upper ∧ Gen.K11c.tbl_LOWER_TABLE.mapM classifyB = some T.lower
   ∧ Gen.K11c.tbl_MIXED_TABLE.mapM classifyB = some T.mixed ∧ Gen.K11c.tbl_PUNCT_TABLE.mapM classifyB = some T.punct
   ∧ Gen.K11c.tbl_DIGIT_TABLE.mapM classifyB = some T.digit
+  ∧ (∀ s ∈ Gen.K11c.tbl_UPPER_TABLE ++ Gen.K11c.tbl_LOWER_TABLE ++ Gen.K11c.tbl_MIXED_TABLE ++ Gen.K11c.tbl_PUNCT_TABLE
+      ++ Gen.K11c.tbl_DIGIT_TABLE, ∀ x ∈ s, 0 ≤ x ∧ x < 256)
 
 instance (T : Tables) : Decidable (TablesAgreeA T) := by unfold TablesAgreeA; infer_instance
 
@@ -90,14 +92,14 @@ def lookK (tbl : List (List Int)) (code : Int) : Res (List Int × Bool) :=
 
 /-- a checked read of a classified table -/
 theorem lookup_agree (tbl : List (List Int)) (ds : List DEntry) (h : tbl.mapM classifyB = some ds) (code : Nat) :
-    (∃ s e, ds[code]? = some e ∧ classifyB s = some e ∧ lookK tbl (code : Int) = .ok (s, false))
+    (∃ s e, s ∈ tbl ∧ ds[code]? = some e ∧ classifyB s = some e ∧ lookK tbl (code : Int) = .ok (s, false))
     ∨ (ds[code]? = none ∧ lookK tbl (code : Int) = .ok ([], true)) := by
   obtain ⟨hl, hp⟩ := mapM_some_spec classifyB tbl ds h
   unfold lookK
   by_cases hc : code < ds.length
   · left
     have hd : decide (((code : Nat) : Int) ≥ Int.ofNat tbl.length) = false := by simp; omega
-    refine ⟨tbl[code]'(by omega), ds[code], by simp [hc], hp code (by omega) hc, ?_⟩
+    refine ⟨tbl[code]'(by omega), ds[code], List.getElem_mem _, by simp [hc], hp code (by omega) hc, ?_⟩
     rw [hd]
     unfold idxLL
     have : ¬ ((code : Int) < 0) := by omega
@@ -120,37 +122,37 @@ when_kernel Gzx.Gen.K11c.getCharacter in
 /-- `getCharacter(table, code)` for every table and every code ≥ 0: the string whose classification is the model's entry,
     or the FormatException of a code beyond the table / of the binary "table" -/
 theorem k_getCharacter_eq (T : Tables) (hT : TablesAgreeA T) (tb : Table) (code : Nat) :
-    (∃ s e, AztecDecoder.getCharacter T tb code = .ok e ∧ classifyB s = some e ∧
+    (∃ s e, AztecDecoder.getCharacter T tb code = .ok e ∧ classifyB s = some e ∧ (∀ x ∈ s, 0 ≤ x ∧ x < 256) ∧
         Gen.K11c.getCharacter (tableCode tb) (code : Int) = .ok (s, false))
     ∨ (AztecDecoder.getCharacter T tb code = .error .format ∧ Gen.K11c.getCharacter (tableCode tb) (code : Int) = .ok ([], true)) := by
-  obtain ⟨h1, h2, h3, h4, h5⟩ := hT
+  obtain ⟨h1, h2, h3, h4, h5, hby⟩ := hT
   obtain ⟨u0, u1, u2, u4, u3, u5⟩ := getCharacter_unfold (code : Int)
   unfold AztecDecoder.getCharacter
   cases tb with
   | upper =>
     simp only [tableCode, u0]
-    rcases lookup_agree _ _ h1 code with ⟨s, e, he, hc, hk⟩ | ⟨he, hk⟩
-    · left; exact ⟨s, e, by simp [he], hc, hk⟩
+    rcases lookup_agree _ _ h1 code with ⟨s, e, hm, he, hc, hk⟩ | ⟨he, hk⟩
+    · left; exact ⟨s, e, by simp [he], hc, hby s (by simp [hm]), hk⟩
     · right; exact ⟨by simp [he], hk⟩
   | lower =>
     simp only [tableCode, u1]
-    rcases lookup_agree _ _ h2 code with ⟨s, e, he, hc, hk⟩ | ⟨he, hk⟩
-    · left; exact ⟨s, e, by simp [he], hc, hk⟩
+    rcases lookup_agree _ _ h2 code with ⟨s, e, hm, he, hc, hk⟩ | ⟨he, hk⟩
+    · left; exact ⟨s, e, by simp [he], hc, hby s (by simp [hm]), hk⟩
     · right; exact ⟨by simp [he], hk⟩
   | mixed =>
     simp only [tableCode, u2]
-    rcases lookup_agree _ _ h3 code with ⟨s, e, he, hc, hk⟩ | ⟨he, hk⟩
-    · left; exact ⟨s, e, by simp [he], hc, hk⟩
+    rcases lookup_agree _ _ h3 code with ⟨s, e, hm, he, hc, hk⟩ | ⟨he, hk⟩
+    · left; exact ⟨s, e, by simp [he], hc, hby s (by simp [hm]), hk⟩
     · right; exact ⟨by simp [he], hk⟩
   | punct =>
     simp only [tableCode, u4]
-    rcases lookup_agree _ _ h4 code with ⟨s, e, he, hc, hk⟩ | ⟨he, hk⟩
-    · left; exact ⟨s, e, by simp [he], hc, hk⟩
+    rcases lookup_agree _ _ h4 code with ⟨s, e, hm, he, hc, hk⟩ | ⟨he, hk⟩
+    · left; exact ⟨s, e, by simp [he], hc, hby s (by simp [hm]), hk⟩
     · right; exact ⟨by simp [he], hk⟩
   | digit =>
     simp only [tableCode, u3]
-    rcases lookup_agree _ _ h5 code with ⟨s, e, he, hc, hk⟩ | ⟨he, hk⟩
-    · left; exact ⟨s, e, by simp [he], hc, hk⟩
+    rcases lookup_agree _ _ h5 code with ⟨s, e, hm, he, hc, hk⟩ | ⟨he, hk⟩
+    · left; exact ⟨s, e, by simp [he], hc, hby s (by simp [hm]), hk⟩
     · right; exact ⟨by simp [he], hk⟩
   | binary => right; simp [tableCode, u5]
 
